@@ -65,6 +65,8 @@ def gen_movie(rng, thorough=False, plant_history=False, dense=False):
         target = rng.choice([0.3, 0.6, 1.0])
     elif npart > 8 and target > 3.0:
         target = 3.0     # 9-12 particles all within range of each other: exponential sub-nets
+    if dim == 1 and npart > 8 and target > 0.6:
+        target = 0.6     # on a line every moderately dense level percolates into one long chain
     vol_ball = {1: 2 * Rmax, 2: 3.14 * Rmax ** 2, 3: 4.19 * Rmax ** 3}[dim]
     side = max(2, int(round((max(npart, 1) * vol_ball / target) ** (1.0 / dim))))
     step = max(1, int(Rmax))
